@@ -137,7 +137,9 @@ FANOUT_PREFIX = [("connect", "n", "m"), ("connect", "n1", "m"), ("sub", "n", "m"
 FANOUT_ALPHA = [("publish", "m", "p", "s", None), ("deliver", "m", "n"), ("deliver", "m", "n1"), ("deliver", "n", "m"),
                 ("deliver", "n1", "m"), ("unsub", "n", "m", "p", "s", 1), ("unsub", "n1", "m", "p", "s", 1),
                 ("sub", "n", "m", "p", "s", 2), ("close", "n", "m"), ("close", "m", "n"), ("close", "n1", "m"),
-                ("objremove", "m", "p"), ("objadd", "m", "p")]
+                ("objremove", "m", "p"), ("objadd", "m", "p"),
+                # the publisher is removed while one subscriber context is half-way through disconnecting
+                ("hc_remove", "m", "p", "n"), ("hc_remove", "m", "p", "n1")]
 
 
 def run_fanout(seq, rng, sig2="s"):
@@ -150,6 +152,11 @@ def run_fanout(seq, rng, sig2="s"):
         if op[0] == "publish":
             ctr[0] += 1
             op = op[:4] + (ctr[0],)
+        if op[0] == "hc_remove":
+            _, x, o, y = op
+            if y in sim.ctx[x].peers and sim.do(("objremove_u", x, o, (y,))):
+                sim.do(("close", x, y))
+            continue
         sim.do(op)
     finish(rng, sim, ctr, probes=0)
     for sg in sorted({"s", sig2}):
@@ -795,6 +802,323 @@ def replay_bidir(c):
     return 1 if bad else 0
 
 
+ADD_REMOVE_FUNCS = ["_add_local_subscriber", "_remove_local_subscriber", "_add_remote_subscriber", "_remove_remote_subscriber",
+                    "_subscribe_local", "_subscribe_remote", "_unsubscribe_remote", "publish_signal", "_deliver_local",
+                    "_handle_subscription_request", "_handle_subscription_reply"]
+
+
+def scenario_lastunsub(s, seed, mode, lines=False, concurrent_pub=False):
+    """subscribe(R1) racing with the LAST unsubscribe of another receiver R0 on the same signal, then k publications.
+    mode: "local" (publisher and receivers in c1), "remote" (R0, R1 in c2, publisher in c1),
+    "remote2" (R0 in c2, R1 in c3, publisher in c1)."""
+    import random
+    import threading as real_threading
+    import qmi.core.context as C
+    import qmi.core.rpc as R
+    import qmi.core.pubsub as P
+    from qmi.core.config_defs import CfgQmi, CfgContext
+    from qmi.core.exceptions import QMI_TimeoutException
+    logging.disable(logging.CRITICAL)
+    rng = random.Random(seed)
+    obs = {"mode": mode, "calls": {}, "early": [], "pubs": [], "queues": {}, "done": False}
+    s.obs = obs
+    s.recording = False
+
+    class Pub(R.QMI_RpcObject):
+        s = P.QMI_Signal([int])
+
+    port = 57000 + (seed % 500)
+    c1 = C.QMI_Context("c1", CfgQmi(contexts={"c1": CfgContext(host="127.0.0.1", tcp_server_port=port)}))
+    c1.start()
+    c1.make_rpc_object("pub", Pub)
+    others = []
+    ctx0 = ctx1 = c1
+    if mode != "local":
+        c2 = C.QMI_Context("c2")
+        c2.start()
+        c2.connect_to_peer("c1", "127.0.0.1:%d" % port)
+        others.append(c2)
+        ctx0 = ctx1 = c2
+        if mode == "remote2":
+            c3 = C.QMI_Context("c3")
+            c3.start()
+            c3.connect_to_peer("c1", "127.0.0.1:%d" % port)
+            others.append(c3)
+            ctx1 = c3
+    r0, r1 = P.QMI_SignalReceiver(), P.QMI_SignalReceiver()
+    ctx0.subscribe_signal("c1", "pub", "s", r0)
+
+    def sub1():
+        try:
+            ctx1.subscribe_signal("c1", "pub", "s", r1)
+            obs["calls"]["sub1"] = "ok"
+        except Exception as exc:
+            obs["calls"]["sub1"] = type(exc).__name__
+
+    def unsub0():
+        try:
+            ctx0.unsubscribe_signal("c1", "pub", "s", r0)
+            obs["calls"]["unsub0"] = "ok"
+        except Exception as exc:
+            obs["calls"]["unsub0"] = type(exc).__name__
+
+    def early():
+        for i in range(2):
+            c1.publish_signal("pub", "s", 50 + i)
+            obs["early"].append(50 + i)
+
+    ths = [real_threading.Thread(target=sub1, name="sub1"), real_threading.Thread(target=unsub0, name="unsub0")]
+    if concurrent_pub:
+        ths.append(real_threading.Thread(target=early, name="early"))
+    if lines:
+        dsched.enable_line_yields([getattr(P.SignalManager, f) for f in ADD_REMOVE_FUNCS])
+    s.recording = True
+    for t in ths:
+        t.start()
+    for t in ths:
+        t.join()
+    s.recording = False
+    dsched.FAKE_TIME.sleep(0.5)
+    for i in range(3):
+        c1.publish_signal("pub", "s", 100 + i)
+        obs["pubs"].append(100 + i)
+    dsched.FAKE_TIME.sleep(1.0)
+    for nm, r in (("r0", r0), ("r1", r1)):
+        q = []
+        while True:
+            try:
+                g = r.get_next_signal(0)
+            except QMI_TimeoutException:
+                break
+            q.append([g.publisher_context, g.publisher_name, g.signal_name, g.args[0] if len(g.args) == 1 else -1])
+        obs["queues"][nm] = q
+    obs["tables"] = {"c1.lsubs": {k: len(v) for k, v in c1._signal_manager._local_subscriptions.items()},
+                     "c1.rsubs": {k: sorted(v) for k, v in c1._signal_manager._remote_subscriptions.items()}}
+    obs["done"] = True
+    for c in reversed(others):
+        c.stop()
+    c1.stop()
+    return obs
+
+
+def lastunsub_oracle(obs):
+    """R1's subscribe returned and it never unsubscribed: it gets every later publication exactly once, in order; R0
+    unsubscribed before them: it gets none of them."""
+    if obs["calls"].get("sub1") != "ok" or obs["calls"].get("unsub0") != "ok":
+        return "call-failed", "subscribe/unsubscribe did not return normally: %r" % (obs["calls"],)
+    late = obs["pubs"]
+    for nm, q in obs["queues"].items():
+        for rec in q:
+            if rec[:3] != ["c1", "pub", "s"] or rec[3] not in late + obs["early"]:
+                return "wrong-record", "receiver %s got %r which was never published" % (nm, rec)
+        got = [r[3] for r in q]
+        if len(set(got)) != len(got):
+            return "duplicate-record", "receiver %s got %r" % (nm, got)
+        if got != sorted(got):
+            return "order", "receiver %s got %r" % (nm, got)
+    got1 = [r[3] for r in obs["queues"]["r1"] if r[3] in late]
+    if got1 != late:
+        return "missing-record", ("R1's subscribe to c1.pub.s returned and R1 never unsubscribed (mode %s; R0, the only other subscriber, "
+                                  "unsubscribed concurrently), but of the later publications %r it got %r (tables %r)" % (
+                                      obs["mode"], late, got1, obs["tables"]))
+    got0 = [r[3] for r in obs["queues"]["r0"] if r[3] in late]
+    if got0:
+        return "stray-record", "R0 had unsubscribed but still got the later publications %r" % (got0,)
+    return None
+
+
+def run_lastunsub(ck, prop, n, ndfs):
+    modes = ["local", "local", "remote", "remote2"]
+    jobs = [(scenario_lastunsub, (ck.rng.randint(0, 10 ** 6), modes[i % 4], i % 4 != 3, i % 5 == 0),
+             dict(strategy="random" if i % 2 else "pct", seed=i)) for i in range(n)]
+    results = dsched.run_forked(jobs, nproc=16, wall_timeout=60.0)
+    allres = [(j[1], j[2], r) for j, r in zip(jobs, results)]
+    # bounded DFS over the 2-thread core (subscribe R1 || unsubscribe R0), line-level switch points, local signal
+    runs = 0
+    for res in dsched.explore_dfs(scenario_lastunsub, (ck.seed, "local", True, False), preemption_bound=2, max_runs=ndfs,
+                                  nproc=16, wall_timeout=60.0):
+        if res["status"] == "_summary":
+            ck.coverage.setdefault("dfs", {})["lastunsub/local"] = {"runs": res["runs"], "exhausted_within_preemption_bound": res["exhausted"],
+                                                                     "bound": 2}
+            continue
+        runs += 1
+        allres.append(((ck.seed, "local", True, False), dict(strategy="replay", schedule=res.get("prefix")), res))
+    for args, kw, res in allres:
+        ck.note_case(("lastunsub", args, tuple(res.get("choices") or ())[:60]), True)
+        ck.count("lastunsub:%s%s:%s" % (args[1], "+lines" if args[2] else "", res["status"]))
+        rp = {"kind": "lastunsub", "seed": args[0], "mode": args[1], "lines": args[2], "concurrent_pub": args[3],
+              "schedule": res.get("choices")}
+        if res["status"] != "ok" or not (res.get("obs") or {}).get("done"):
+            ck.report("oracle:%s:lastunsub:%s:%s" % (prop.lower(), args[1], res["status"]),
+                      "subscribe/last-unsubscribe run did not finish (%s): %s" % (res["status"], str(res.get("info") or res.get("trace"))[:600]), rp)
+            continue
+        bad = lastunsub_oracle(res["obs"])
+        if bad:
+            ck.report("oracle:%s:lastunsub:%s:%s" % (prop.lower(), args[1], bad[0]),
+                      "%s fails on real contexts (subscribe racing with the last unsubscribe of another receiver): %s" % (prop, bad[1]),
+                      dict(rp, queues=res["obs"]["queues"], calls=res["obs"]["calls"]))
+
+
+def replay_lastunsub(c):
+    import qmi.core.context, qmi.core.rpc, qmi.core.pubsub, qmi.core.messaging, qmi.core.task  # noqa
+    res = dsched.run_forked([(scenario_lastunsub, (c["seed"], c["mode"], bool(c.get("lines")), bool(c.get("concurrent_pub"))),
+                              dict(strategy="replay", schedule=list(c["schedule"] or [])))], nproc=1, wall_timeout=60.0)[0]
+    print("status:", res["status"])
+    if res["status"] != "ok":
+        print(res.get("info") or res.get("trace"))
+        return 1
+    o = res["obs"]
+    print("calls:", o["calls"], "published during the race:", o["early"], "afterwards:", o["pubs"])
+    print("queues:", o["queues"], "tables:", o["tables"])
+    bad = lastunsub_oracle(o)
+    print("oracle:", bad or "property holds on this schedule")
+    return 1 if bad else 0
+
+
+def scenario_remove_disc(s, seed, lines=False):
+    """The publisher object of c1 is removed while one of its subscriber contexts disconnects; 2-3 subscriber contexts
+    on 2 signals.  Afterwards the publisher is re-created and a still-connected context subscribes again."""
+    import random
+    import threading as real_threading
+    import qmi.core.context as C
+    import qmi.core.rpc as R
+    import qmi.core.pubsub as P
+    import qmi.core.messaging as M
+    from qmi.core.config_defs import CfgQmi, CfgContext
+    from qmi.core.exceptions import QMI_TimeoutException
+    logging.disable(logging.CRITICAL)
+    rng = random.Random(seed)
+    obs = {"lsubs": {}, "queues": {}, "pubs": [], "calls": {}, "done": False}
+    s.obs = obs
+    s.recording = False
+
+    class Pub(R.QMI_RpcObject):
+        s = P.QMI_Signal([int])
+        s1 = P.QMI_Signal([int])
+
+    port = 58000 + (seed % 500)
+    c1 = C.QMI_Context("c1", CfgQmi(contexts={"c1": CfgContext(host="127.0.0.1", tcp_server_port=port)}))
+    c1.start()
+    proxy = c1.make_rpc_object("pub", Pub)
+    subs = {}
+    nsub = rng.choice([2, 3])
+    for i, (nm, sg) in enumerate([("c2", "s"), ("c3", "s1"), ("c4", "s")][:nsub]):
+        c = C.QMI_Context(nm)
+        c.start()
+        c.connect_to_peer("c1", "127.0.0.1:%d" % port)
+        r = P.QMI_SignalReceiver()
+        c.subscribe_signal("c1", "pub", sg, r)
+        subs[nm] = (c, sg, r)
+    how = rng.choice(["disconnect", "stop"])
+
+    def remover():
+        c1.remove_rpc_object(proxy)
+        obs["calls"]["remove"] = "ok"
+
+    th = real_threading.Thread(target=remover, name="remover")
+    if lines:
+        dsched.enable_line_yields([P.SignalManager.handle_object_removed, P.SignalManager.handle_peer_context_removed,
+                                   M._SocketManager.remove_peer_connection])
+    s.recording = True
+    first = rng.random() < 0.5
+    if first:
+        th.start()
+    if rng.random() < 0.5:
+        dsched.FAKE_TIME.sleep(rng.choice([0.0, 0.0005, 0.002]))
+    c2 = subs["c2"][0]
+    if how == "disconnect":
+        c2.disconnect_from_peer("c1")
+    else:
+        c2.stop()
+    if not first:
+        th.start()
+    th.join()
+    s.recording = False
+    dsched.FAKE_TIME.sleep(1.0)
+    for nm, (c, sg, r) in subs.items():
+        if nm != "c2":
+            obs["lsubs"][nm] = sorted(c._signal_manager._local_subscriptions)
+    obs["c1.rsubs"] = {k: sorted(v) for k, v in c1._signal_manager._remote_subscriptions.items()}
+    # the publisher comes back; a still-connected context subscribes a new receiver
+    c1.make_rpc_object("pub", Pub)
+    c3, sg3, _ = subs["c3"]
+    rnew = P.QMI_SignalReceiver()
+    try:
+        c3.subscribe_signal("c1", "pub", sg3, rnew)
+        obs["calls"]["resub"] = "ok"
+    except Exception as exc:
+        obs["calls"]["resub"] = type(exc).__name__
+    for i in range(2):
+        c1.publish_signal("pub", sg3, 300 + i)
+        obs["pubs"].append(300 + i)
+    dsched.FAKE_TIME.sleep(1.0)
+    q = []
+    while True:
+        try:
+            g = rnew.get_next_signal(0)
+        except QMI_TimeoutException:
+            break
+        q.append(g.args[0] if len(g.args) == 1 else -1)
+    obs["queues"]["c3.new"] = q
+    obs["done"] = True
+    for nm, (c, sg, r) in reversed(list(subs.items())):
+        if not (nm == "c2" and how == "stop"):
+            c.stop()
+    c1.stop()
+    return obs
+
+
+def remove_disc_oracle(obs):
+    """Removing a publisher ends the subscriptions on it at both ends: once things have settled no still-connected
+    context has a subscription left on it; and the receivers that subscribe to the re-created publisher get its signals."""
+    if obs["calls"].get("remove") != "ok":
+        return "call-failed", "remove_rpc_object did not return"
+    for nm, ls in obs["lsubs"].items():
+        if ls:
+            return "stale-subscription", ("c1.pub was removed and everything has settled, yet the still-connected context %s keeps the "
+                                          "local subscriptions %r (c1 lists %r)" % (nm, ls, obs["c1.rsubs"]))
+    if obs["c1.rsubs"]:
+        return "stale-remote-subscriber", "c1 still lists remote subscribers %r of the removed publisher" % (obs["c1.rsubs"],)
+    if obs["calls"].get("resub") != "ok":
+        return "resubscribe-failed", "subscribing to the re-created publisher failed: %r" % (obs["calls"],)
+    if obs["queues"]["c3.new"] != obs["pubs"]:
+        return "missing-record", "the receiver subscribed to the re-created publisher got %r instead of %r" % (obs["queues"]["c3.new"], obs["pubs"])
+    return None
+
+
+def run_remove_disc(ck, prop, n):
+    jobs = [(scenario_remove_disc, (ck.rng.randint(0, 10 ** 6), i % 4 != 3), dict(strategy="random" if i % 2 else "pct", seed=i))
+            for i in range(n)]
+    results = dsched.run_forked(jobs, nproc=16, wall_timeout=60.0)
+    for (fn, args, kw), res in zip(jobs, results):
+        ck.note_case(("remove_disc", args, kw["seed"], tuple(res.get("choices") or ())[:60]), True)
+        ck.count("remove_disc%s:%s" % ("+lines" if args[1] else "", res["status"]))
+        rp = {"kind": "remove_disc", "seed": args[0], "lines": args[1], "sched": kw, "schedule": res.get("choices")}
+        if res["status"] != "ok" or not (res.get("obs") or {}).get("done"):
+            ck.report("oracle:%s:remove_disc:%s" % (prop.lower(), res["status"]),
+                      "remove/disconnect run did not finish (%s): %s" % (res["status"], str(res.get("info") or res.get("trace"))[:600]), rp)
+            continue
+        bad = remove_disc_oracle(res["obs"])
+        if bad:
+            ck.report("oracle:%s:remove_disc:%s" % (prop.lower(), bad[0]),
+                      "%s fails on real contexts (publisher removed while a subscriber context disconnects): %s" % (prop, bad[1]),
+                      dict(rp, obs=res["obs"]))
+
+
+def replay_remove_disc(c):
+    import qmi.core.context, qmi.core.rpc, qmi.core.pubsub, qmi.core.messaging, qmi.core.task  # noqa
+    res = dsched.run_forked([(scenario_remove_disc, (c["seed"], bool(c.get("lines"))),
+                              dict(strategy="replay", schedule=list(c["schedule"] or [])))], nproc=1, wall_timeout=60.0)[0]
+    print("status:", res["status"])
+    if res["status"] != "ok":
+        print(res.get("info") or res.get("trace"))
+        return 1
+    print("observations:", res["obs"])
+    bad = remove_disc_oracle(res["obs"])
+    print("oracle:", bad or "property holds on this schedule")
+    return 1 if bad else 0
+
+
 def thread_oracle(obs, remote):
     """C07 on the call log of real threads: ops are intervals [t0,t1] of a global tick counter."""
     pubs = {e[3]: e for e in obs["log"] if e[0] == "pub"}
@@ -1045,6 +1369,8 @@ def run(ck):
         ck.count("fanout:records", sum(len(q) for q in res["obs"]["queues"].values()))
     run_recreate(ck, "C07", 180 if ck.tier == "quick" else 3000)
     run_bidir(ck, "C07", 150 if ck.tier == "quick" else 2400)
+    run_lastunsub(ck, "C07", 160 if ck.tier == "quick" else 3000, 160 if ck.tier == "quick" else 3000)
+    run_remove_disc(ck, "C07", 60 if ck.tier == "quick" else 600)
     return ck.finish("exhaustive op sequences (12-letter alphabet, 3 prefixes) + seeded random histories on 1-3 contexts with "
                      "re-entrant interleaving inside publish + random thread schedules of real contexts; non-trivial = at "
                      "least one record or message delivered; distinct by label sequence")
@@ -1073,6 +1399,10 @@ def replay(rep):
         return replay_recreate(c)
     if c.get("kind") == "bidir":
         return replay_bidir(c)
+    if c.get("kind") == "lastunsub":
+        return replay_lastunsub(c)
+    if c.get("kind") == "remove_disc":
+        return replay_remove_disc(c)
     if c.get("kind") == "fanout":
         import qmi.core.context, qmi.core.rpc, qmi.core.pubsub, qmi.core.messaging, qmi.core.task  # noqa
         res = dsched.run_forked([(scenario_fanout, (c["seed"], bool(c.get("lines"))),
